@@ -431,6 +431,24 @@ class Evaluator:
                     except Evaluator._Break:
                         break
                 continue
+            if isinstance(st, ast.Try):
+                # the abstract run takes the no-exception path (an EvalRaised outcome propagates to the caller of the evaluator)
+                self._exec(st.body, env)
+                self._exec(st.orelse, env)
+                self._exec(st.finalbody, env)
+                continue
+            if isinstance(st, ast.Expr) and isinstance(st.value, ast.Call) and isinstance(st.value.func, ast.Attribute) and isinstance(st.value.func.value, ast.Name) \
+                    and st.value.func.attr in ("sort", "reverse") and isinstance(env.get(st.value.func.value.id), list):
+                recv = env[st.value.func.value.id]
+                kwargs = {k.arg: self.ev(k.value, env) for k in st.value.keywords}
+                if "key" in kwargs and isinstance(kwargs["key"], Closure):
+                    c_ = kwargs["key"]
+                    kwargs["key"] = lambda a, _c=c_: self.call(_c, [a], {})
+                try:
+                    getattr(recv, st.value.func.attr)(**kwargs)
+                except Exception as e:
+                    raise Unknown(f"{st.value.func.attr}: {e}")
+                continue
             if isinstance(st, ast.Continue):
                 raise Evaluator._Continue()
             if isinstance(st, ast.Break):
